@@ -192,7 +192,12 @@ func runTemplate(name string, iters int, r *hx.Rng) string {
 	h := handleFor(t)
 	ad := []byte("associated data")
 	if t.slow {
+		// RSA-3072 and SLH-DSA-128s signing under the race detector costs seconds per call:
+		// a handful of overlapping calls per worker is what the budget allows, in every tier
 		iters = iters/10 + 1
+		if iters > 6 {
+			iters = 6
+		}
 	}
 	switch t.class {
 	case "prehash":
